@@ -1339,6 +1339,9 @@ pub enum PI {
     EMulB(u16, u16),
     Assert { k: AK, x: u16, y: u16, when: When },
     AssertE { k: EK, x: u16, y: u16, when: When },
+    /// a gadget written over `ExprEF` but applied to base expressions only:
+    /// `assert_zero_ext(ExprEF::from(a) (op) ExprEF::from(b) - ExprEF::from(c))`
+    LiftedGadget { op: u8, a: u16, b: u16, c: u16, when: When },
     Interact { bus: u8, fields: Vec<u16>, count: u16, weight: u8 },
     Local { width: u8, tuples: Vec<(Vec<u16>, u16, u8)> },
 }
@@ -1574,6 +1577,19 @@ where
                     let (x, y) = (gete(*x), gete(*y));
                     with_when!(b, when, getb, |fb| do_assert_ext(fb, k, x, y))
                 }
+                PI::LiftedGadget { op, a, b: bb, c, when } => {
+                    let (x, y, z) = (
+                        AB::ExprEF::from(getb(*a)),
+                        AB::ExprEF::from(getb(*bb)),
+                        AB::ExprEF::from(getb(*c)),
+                    );
+                    let v = match op % 3 {
+                        0 => x * y - z,
+                        1 => x + y - z,
+                        _ => x - y * z,
+                    };
+                    with_when!(b, when, getb, |fb| fb.assert_zero_ext(v))
+                }
                 PI::Interact { bus, fields, count, weight } => {
                     let bus = (*bus % 3) as usize;
                     let width = bus + 1;
@@ -1653,6 +1669,8 @@ fn pi_strategy(ext_weight: u32, lookup_weight: u32) -> impl Strategy<Value = PI>
         3 => (u(), u()).prop_map(|(a, b)| PI::EMul(a, b)),
         2 => (u(), u()).prop_map(|(a, b)| PI::EMulB(a, b)),
         5 => (ek, u(), u(), when_strategy()).prop_map(|(k, x, y, when)| PI::AssertE { k, x, y, when }),
+        3 => (any::<u8>(), u(), u(), u(), when_strategy())
+            .prop_map(|(op, a, b, c, when)| PI::LiftedGadget { op, a, b, c, when }),
     ];
     let lookups = prop_oneof![
         3 => (0u8..3, prop::collection::vec(u(), 1..=3), u(), 0u8..3)
@@ -1696,7 +1714,7 @@ pub fn prog_strategy(max_len: usize, allow_interleave: bool) -> impl Strategy<Va
         .prop_map(move |((cfg, width, n_prep, n_pub), periodic, mut instrs, pack, seed)| {
             if !allow_interleave {
                 let (e, mut rest): (Vec<PI>, Vec<PI>) =
-                    instrs.into_iter().partition(|i| matches!(i, PI::AssertE { .. }));
+                    instrs.into_iter().partition(|i| matches!(i, PI::AssertE { .. } | PI::LiftedGadget { .. }));
                 rest.extend(e);
                 instrs = rest;
             }
@@ -1709,7 +1727,7 @@ fn interleaved(instrs: &[PI]) -> bool {
     let mut seen_ext = false;
     for i in instrs {
         match i {
-            PI::AssertE { .. } => seen_ext = true,
+            PI::AssertE { .. } | PI::LiftedGadget { .. } => seen_ext = true,
             PI::Assert { .. } if seen_ext => return true,
             _ => {}
         }
@@ -2024,6 +2042,10 @@ where
                     When::FirstAnd(_) | When::TransitionAnd(_) => "when:nested",
                 });
                 feats.insert(if matches!(i, PI::AssertE { .. }) { "instr:assert-ext" } else { "instr:assert-base" });
+            }
+            PI::LiftedGadget { .. } => {
+                let n = c.instrs.iter().filter(|i| matches!(i, PI::LiftedGadget { .. })).count();
+                feats.insert(if n >= 2 { "instr:lifted-base-ext-assert(>=2)" } else { "instr:lifted-base-ext-assert(1)" });
             }
             PI::Interact { .. } => {
                 feats.insert("instr:global-interaction");
